@@ -42,7 +42,12 @@ static struct frame fr[FRAMES + 1];
 dbus_bool_t _dbus_header_have_message_untrusted (int max, DBusValidity *validity, int *byte_order, int *fal, int *header_len, int *body_len, const DBusString *str, int start, int len)
 {
   struct frame *f = &fr[cur < FRAMES ? cur : FRAMES];
+#ifdef GETBUF
+  { int k, found = -1, off = 0; for (k = 0; k <= FRAMES; k++) { if (start == off) found = k; off += fr[k].hl + fr[k].bl; }
+    VF_ASSERT (found >= 0 && len == LEN (str) - start, "the read-size hint walks the buffered data frame by frame"); f = &fr[found >= 0 ? found : 0]; }
+#else
   VF_ASSERT (len == LEN (str) && start == 0, "framing looks at the whole buffered data from its front");
+#endif
   *byte_order = 'l';
   if (!f->framing_valid) { *validity = DBUS_INVALID_BAD_BYTE_ORDER; return 0; }
   *validity = DBUS_VALID; *header_len = f->hl; *body_len = f->bl; *fal = f->hl - 16;
@@ -93,7 +98,11 @@ void harness (void)
   int i, total = 0, tail, len0, q, expect_q = 0, expect_len, stopped = 0, corrupt_expected = 0, oom_expected = 0;
   unsigned fds0, expect_fds;
   dbus_bool_t ok;
+#ifdef GETBUF
+  tail = vf_range (0, 8191);                  /* bytes of an incomplete next frame: any proper prefix */
+#else
   tail = vf_range (0, 15);                    /* bytes of an incomplete next frame */
+#endif
   for (i = 0; i <= FRAMES; i++)
     {
       fr[i].framing_valid = vf_bool (); fr[i].hl = vf_range (16, 4096); fr[i].bl = vf_range (0, 4096);
@@ -106,6 +115,22 @@ void harness (void)
   loader.unix_fds = fdarr; loader.n_unix_fds_allocated = 16; loader.n_unix_fds = fds0 = (unsigned) vf_range (0, 8);
   oom_copy = vf_bool ();
   cur = 0;
+#ifdef GETBUF
+  {
+    /* C11 / C15: the read-size hint.  While descriptors are held (a message carrying fds is only partly buffered), the next read must not go past the end
+     * of the message that is being completed — bytes of the following message read without room for its descriptors would lose them. */
+    DBusString *bufp = 0; int max = -1; dbus_bool_t may = 99; int needed = fr[FRAMES].hl + fr[FRAMES].bl;
+    for (i = 0; i < FRAMES; i++) VF_ASSUME (fr[i].framing_valid && fr[i].hl + fr[i].bl > 16);   /* complete frames in front are well-framed (else the loader has already declared corruption) and carry at least one header field: a bare 16-byte frame left buffered by an out-of-memory retry would trip _dbus_assert (needed > DBUS_MINIMUM_HEADER_SIZE) — observation O2 in DESIGN.md */
+    _dbus_message_loader_get_buffer (&loader, &bufp, &max, &may);
+    VF_ASSERT (bufp == &loader.data && loader.buffer_outstanding, "the loader's own buffer is handed out");
+    if (fds0 == 0) VF_ASSERT (max == DBUS_MAXIMUM_MESSAGE_LENGTH && may == TRUE, "nothing held: read freely");
+    else if (tail == 0) VF_ASSERT (max == DBUS_MAXIMUM_MESSAGE_LENGTH && may == TRUE, "no partial message buffered: read freely");
+    else if (tail < 16) { VF_ASSERT (max == 16 - tail && may == FALSE, "fewer than 16 bytes of the next message: read only the rest of its fixed header, without descriptors"); VF_WITNESS_OPT ("partial fixed header"); }
+    else if (fr[FRAMES].framing_valid)
+      { VF_ASSERT (max == needed - tail && may == FALSE, "a partly buffered message: read exactly the bytes it still lacks (never into the next message), without descriptors"); VF_WITNESS_OPT ("partial message"); }
+    VF_WITNESS ("end of harness reached");
+  }
+#else
   /* the loader advances 'cur' implicitly: one frame is consumed per appended message */
   ok = _dbus_message_loader_queue_messages (&loader);
   /* reference walk */
@@ -156,4 +181,5 @@ void harness (void)
     }
   if (expect_q == FRAMES && FRAMES > 0) VF_WITNESS ("all frames loaded");
   VF_WITNESS ("end of harness reached");
+#endif
 }
